@@ -387,6 +387,12 @@ def check_case(ctx, fails, kind, gen, stab, rx, r0, r1, model, spec, df, dj, met
                          float(s[2]), float(s[3])), pay))
 
 
+def clean_frame(d):
+    c = d.copy()
+    c.loc[c['S'] == 0, ['A', 'Y']] = float('nan')
+    return c
+
+
 def junk_only_y(df, dj):
     d = df.copy()
     d['Y'] = dj['Y']
@@ -444,6 +450,9 @@ def _aipsw_dr_cases(ctx, fails, cases, fixed):
                 rx, fS, fA, fQ = fixed[2], fixed[4], fixed[5], fixed[6]
             r = run_est('AIPSW', d, meta, gen, stab, rx, fS=fS, fA=fA, fQ=fQ)
             ctx.evaluations += 1
+            if recorded:      # the same specification on the frame with nothing recorded outside the study sample
+                r['clean'] = run_est('AIPSW', clean_frame(d), meta, gen, stab, rx, fS=fS, fA=fA, fQ=fQ)
+                ctx.evaluations += 1
             work.append(('est', fid, (gen, stab, rx, side, fS, fA, fQ, r)))
             exprs.append(model_expr('AIPSW', fid, gen, stab, rx, r) if 'error' not in r and with_model else 'Qflat [0]')
     res, errs = coq_eval(ctx, 'c02aipsw', IMPORTS, exprs, shard=4, preamble=pre)
@@ -485,6 +494,25 @@ def _aipsw_dr_cases(ctx, fails, cases, fixed):
                               % (cfgs, r['rd'], r['rr'], m[2] and float(m[2]), m[3] and float(m[3])), pay))
         elif model is None:
             ctx.broken_ties.append('no Coq value for the model of ' + cfgs)
+        # whatever is recorded for the non-sampled rows must leave every fitted nuisance value and the result unchanged
+        # (checked for saturated AND misspecified models alike: double robustness would otherwise hide a polluted fit)
+        rc = r.get('clean')
+        if rc is not None and 'error' not in rc:
+            ctx.disagreements_checked += 1
+            for nm, mname in (('ps', 'sampling_model'), ('pa', 'treatment_model'), ('q1', 'outcome_model'), ('q0', 'outcome_model')):
+                if r[nm] is None or rc[nm] is None:
+                    continue
+                bad = [k for k, (x, y) in enumerate(zip(rc[nm], r[nm])) if x is not None and y is not None and abs(x - y) > 1e-7 * max(1.0, abs(x))]
+                if bad:
+                    k = bad[0]
+                    fails.append((n, 'AIPSW.%s.fit-includes-nonsample-rows' % mname,
+                                  '%s: the fitted %s value of stratum %d is %r with NaN outside the study sample and %r once outcome and '
+                                  'treatment are recorded there' % (cfgs, mname, k, rc[nm][k], r[nm][k]), pay))
+            if not (rel_close(rc['rd'], r['rd'], 1e-9) and rel_close(rc['rr'], r['rr'], 1e-9)):
+                fails.append((n, 'AIPSW.dr.outside-values-change-result',
+                              '%s: RD %r with NaN in the non-sampled rows, %r with recorded values there' % (cfgs, rc['rd'], r['rd']), pay))
+        elif rc is not None:
+            fails.append((n, 'AIPSW.dr.raises', cfgs + ' on the frame with NaN outside the sample raised ' + rc['error'], pay))
         # oracle validation of the saturated side (hypotheses of aipsw_Qsat / aipsw_wsat)
         sat_ok = True
         for k, cell in spec[fid]['cells'].items():
@@ -505,6 +533,8 @@ def _aipsw_dr_cases(ctx, fails, cases, fixed):
                  % (cfgs, r['rd'], r['rr'], float(s[2]), float(s[3]), n))
         if side == 'W' and recorded and not sat_ok:
             key = 'AIPSW.treatment_model.fit-includes-nonsample-rows'
+        elif side == 'Q' and recorded and not sat_ok:
+            key = 'AIPSW.outcome_model.fit-includes-nonsample-rows'
         elif side == 'W' and stab and sat_ok:
             key = DR_KNOWN_KEY
         else:
